@@ -59,14 +59,19 @@ def model_runs(rep: Report, tier: str) -> Tuple[List[dict], List[dict]]:
         rep.model(m, f"every path list over <= {mf} of 4 file kinds{' (+ one named twice)' if dup else ''} x "
                      f"pool 1..3 x serial/imap_unordered/imap x lint/fix, all interleavings")
     # 2. emission: terminal states with their completion orders, for replay
-    m = run_tlc("Runner", cfg_text(constants={**base, "Kinds": STD_KINDS, "MaxFiles": 3, "AllowDup": True,
-                                               "EmitOn": True}, invariants=inv),
-                timeout=3000, heap="8g", workers=_workers())
-    expect_model_ok(m, "Runner emission run")
-    rep.model(m, "emission: <= 3 files + one named twice, histories kept apart (completion orders)")
-    emitted = [r for r in m.records if isinstance(r, dict) and "comp" in r]
+    emitted: List[dict] = []
+    for mf, dup in ([(3, True)] if tier == "thorough" else [(3, False), (2, True)]):
+        m = run_tlc("Runner", cfg_text(constants={**base, "Kinds": STD_KINDS, "MaxFiles": mf, "AllowDup": dup,
+                                                   "EmitOn": True}, invariants=inv),
+                    timeout=3000, heap="8g", workers=_workers())
+        expect_model_ok(m, "Runner emission run")
+        rep.model(m, f"emission: <= {mf} files{' + one named twice' if dup else ''}, histories kept apart "
+                     f"(one record per terminal state, with its completion order)")
+        emitted += [r for r in m.records if isinstance(r, dict) and "comp" in r]
     if not emitted:
         raise MachineryError("Runner emitted no terminal states")
+    # TLC prints in worker order: canonical order (and no repeats between the two scopes) => same sample per seed
+    emitted = [json.loads(k) for k in sorted({json.dumps(r, sort_keys=True) for r in emitted})]
     bad = [r for r in emitted if r["failing"]]
     if bad:
         raise MachineryError(f"Runner: emitted state fails the contract although the invariant held: {bad[0]}")
@@ -76,7 +81,8 @@ def model_runs(rep: Report, tier: str) -> Tuple[List[dict], List[dict]]:
                  timeout=3000, heap="8g", workers=_workers())
     expect_model_ok(m2, "Runner with a raising file (no contract invariant: verdicts are emitted)")
     rep.model(m2, "prediction: clean/fixable/raise, <= 3 files; contract clauses evaluated and emitted per terminal state")
-    raising = [r for r in m2.records if isinstance(r, dict) and "comp" in r]
+    raising = [json.loads(k) for k in sorted({json.dumps(r, sort_keys=True) for r in m2.records
+                                              if isinstance(r, dict) and "comp" in r})]
     for r in raising:
         predicted = bool(r["failing"])
         expected = r["mode"] == "serial" and "raise" in r["tasks"]
@@ -210,7 +216,7 @@ def run_jobs(jobs: List[dict], work: str) -> Dict[str, dict]:
     env["PYTHONPATH"] = os.pathsep.join([os.path.join(os.path.dirname(os.path.dirname(os.path.dirname(__file__)))),
                                          os.path.join(REPO, "src")])
     env.pop("SQLFLUFF_VERIF_TRACE", None)
-    conc = max(1, int(os.environ.get("VF_PROCS", "14") or 14) // 3)
+    conc = max(1, int(os.environ.get("VF_PROCS", "14") or 14) // 2)
 
     def go(job: dict) -> Tuple[str, dict]:
         jd = os.path.join(work, job["id"])
@@ -314,13 +320,17 @@ def build_trace(tid: str, run: dict, base: dict, spec: dict, kindof: Dict[str, s
             "base": b, "final": final, "events": events}
 
 
-def out_of_order(run: dict, hooked: bool) -> bool:
+def out_of_order(run: dict, hooked: bool, submitted: List[str]) -> bool:
     """Non-trivial: at least two files were seen by the main loop in an order other than submission order."""
     key = "consume" if hooked else "add"
-    seen = [e["fname"] for e in run["events"] if e["event"] == key]
-    take = [e["fname"] for e in run["events"] if e["event"] == "take"] if hooked else sorted(seen)
-    order = {f: i for i, f in reversed(list(enumerate(take)))}
-    idx = [order.get(f, 0) for f in seen]
+    seen = [os.path.normpath(e["fname"]) for e in run["events"] if e["event"] == key and e.get("fname")]
+    pos: Dict[str, List[int]] = {}
+    for i, f in enumerate(submitted):
+        pos.setdefault(f, []).append(i)
+    idx = []
+    for f in seen:
+        if pos.get(f):
+            idx.append(pos[f].pop(0))
     return any(a > b for a, b in zip(idx, idx[1:]))
 
 
@@ -348,7 +358,7 @@ def make_jobs(tier: str, seed: int, emitted: List[dict], raising: List[dict], ro
                      "runs": [{k: v for k, v in r.items() if not k.startswith("_")} for r in runs]})
 
     # ---- S->C: TLC terminal states as small real directories
-    n_s2c = 10 if tier == "quick" else 60
+    n_s2c = 10 if tier == "quick" else 40
     pool = [r for r in emitted if not (r["mode"] != "serial" and r["n"] == 1)]
     strata: Dict[Any, List[dict]] = {}
     for r in pool:
@@ -389,9 +399,9 @@ def make_jobs(tier: str, seed: int, emitted: List[dict], raising: List[dict], ro
         add_job(jid, tpl, kindof, runs, tlc=tl)
 
     # ---- C->S: generated directories
-    ndirs = 2 if tier == "quick" else 8
+    ndirs = 2 if tier == "quick" else 5
     procs = [2, 4] if tier == "quick" else [2, 4, 8]
-    nplans = 1 if tier == "quick" else 3
+    nplans = 1 if tier == "quick" else 2
     unit = 0.05
     for d in range(ndirs):
         tpl = os.path.join(root, "tpl", f"d{d}")
@@ -447,12 +457,19 @@ def make_jobs(tier: str, seed: int, emitted: List[dict], raising: List[dict], ro
     return jobs, meta
 
 
-def check_tlc_values(rep: Report, rid: str, m: dict, run: dict, sig: dict) -> None:
+def check_tlc_values(rep: Report, rid: str, m: dict, run: dict, sig: dict, tpl: str) -> None:
     """S->C: compare the real run with the contract values carried by the TLC record."""
     rec, spec, kindof = m["tlc"], m["spec"], m["kindof"]
     fin = run["final"]
-    payload = {"tlc": rec, "spec": {k: v for k, v in spec.items() if not k.startswith("_")}, "final": fin}
+    payload = {"kind": "tlc", "tlc": rec, "spec": spec, "kindof": kindof, "final": fin, "sig": sig,
+               "tpl_files": _read_tree(tpl)}
     what = f"TLC case tasks={rec['tasks']} n={rec['n']} mode={rec['mode']} op={rec['op']} comp={rec['comp']}"
+    if "raise" in rec["tasks"] and fin["raised"] is None and any(
+            e["event"] == "add" and os.path.normpath(e["fname"]) == "raise.sql" for e in run["events"]):
+        # the concretisation of "a file whose rendering raises" no longer raises in this tree (DESIGN F24 repaired?):
+        # the case is not an instance of the TLC record; the trace validation against the serial run still applies
+        rep.extra["raise_trigger_inert"] = True
+        return
     if fin["raised"] is not None:
         # the contract never lets an exception escape; whether serial and parallel *agree* is the validator's clause
         rep.violation("EscapeAgrees", dict(sig, escaped="serial" if rec["mode"] == "serial" else "parallel"),
@@ -531,10 +548,11 @@ def run(tier: str, seed: int) -> int:
                               ("parallel" if run_["final"]["raised"] and not base["final"]["raised"] else "no"),
                    "diff_codes": diff_codes(run_, base)}
             info[rid] = (sig, run_, base, spec, m)
-            if t["mode"] != "serial" and out_of_order(run_, t["hook"]):
+            flat = [f for grp in expand(spec["paths"], m["kindof"]) for f in grp]
+            if t["mode"] != "serial" and out_of_order(run_, t["hook"], flat):
                 rep.nontrivial(rid)
             if m["tlc"] is not None:
-                check_tlc_values(rep, rid, m, run_, sig)
+                check_tlc_values(rep, rid, m, run_, sig, os.path.join(root, "tpl", _tpl_of(m["job"])))
         val = validate_traces("RunnerTrace", traces, constants={
             "Kinds": set(), "MaxFiles": 0, "AllowDup": False, "MaxN": 0, "Modes": set(), "Ops": set(), "EmitOn": False})
         rep.validation(val, "RunnerTrace")
@@ -596,9 +614,6 @@ def replay(path, tier, seed):
     with open(path) as fh:
         doc = json.load(fh)
     case = doc["case"]
-    if case.get("kind") != "run":
-        print("replay: S->C value mismatch; re-run ./check C24 to re-enumerate")
-        return 1
     hook = hook_applied()
     root = scratch("c24r")
     try:
@@ -615,6 +630,16 @@ def replay(path, tier, seed):
         ov = {"dialect": "ansi", "rules": "LT01,CP01,ZZ01"} if spec["surface"] == "api_user_rules" else {"dialect": "ansi"}
         res = run_jobs([{"id": "replay", "template": tpl, "overrides": ov, "runs": [b, dict(pub, id="run")]}],
                        os.path.join(root, "work"))["replay"]
+        if case.get("kind") == "tlc":
+            rep = Report(PROP, tier, seed, "model_checking")
+            check_tlc_values(rep, "run", {"tlc": case["tlc"], "spec": spec, "kindof": case["kindof"]}, res["run"],
+                             case.get("sig", {}), tpl)
+            if rep.violations:
+                print(f"VIOLATION property={PROP} replay={path}")
+                print(f"  clause={rep.violations[0]['clause']} {rep.violations[0]['what']}")
+                return 1
+            print("replay: behaviour now satisfies the contract")
+            return 0
         t = build_trace("run", res["run"], res["base"], dict(spec, _orig=spec["_orig"]), case["kindof"], hook,
                         Interner(), Interner(), Interner())
         val = validate_traces("RunnerTrace", [t], constants={
